@@ -124,6 +124,37 @@ pub fn run_raw(case: &RawCase, program: Option<&rusty_parser::Program>) -> RawRu
             });
         }
     }
+    if let Outcome::Panic {
+        stage: "interpret",
+        message,
+        location,
+    } = &r.outcome
+    {
+        let stack_words = [
+            "underflow",
+            "Expected normal state",
+            "Expected argument state",
+            "Expected state with arguments",
+            "removal index",
+            "Should have a VarPath",
+            "Should have function result",
+            "Not collecting arguments",
+        ];
+        let regs = location.contains("interpreter/main.rs") && message.contains("Option::unwrap()");
+        if regs || stack_words.iter().any(|w| message.contains(w)) {
+            out.found.push(Found {
+                property: "C15",
+                class: Class::Stack,
+                key: format!("I1:{}", message.chars().take(40).collect::<String>()),
+                prog: 0,
+                stmt: None,
+                detail: format!(
+                    "a VM stack was popped while empty (or a call frame was missing): {} at {}",
+                    message, location
+                ),
+            });
+        }
+    }
     for v in &r.monitor.violations {
         out.found.push(Found {
             property: "C15",
@@ -441,7 +472,16 @@ pub fn gen_wio(rng: &mut Rng) -> RawCase {
             }
             format!("{}({})", f, a.join(", "))
         };
-        let l = match rng.below(50) {
+        let l = match rng.below(58) {
+            // block headers that fail: resuming must not enter the block half way
+            50 => format!("FOR {} = 1 TO 1 / Z0%\nPRINT {}\nNEXT", rng.pick(&["A%", "C!"]), i1),
+            51 => format!("FOR A% = 1 TO 3 STEP {} / Z0%\nPRINT A%\nIF A% > 5 THEN END\nNEXT", i1),
+            52 => format!("SELECT CASE {} / Z0%\nCASE 1\nPRINT \"one\"\nCASE ELSE\nPRINT \"else\"\nEND SELECT", i1),
+            53 => format!("IF {} / Z0% = 1 THEN\nPRINT \"then\"\nELSEIF 1 / Z0% = 2 THEN\nPRINT \"elseif\"\nELSE\nPRINT \"else\"\nEND IF", i1),
+            54 => "Cnt".to_string(),
+            55 => "Outer 2".to_string(),
+            56 => format!("WHILE {} / Z0% = 1\nPRINT \"w\"\nEND\nWEND", i1),
+            57 => format!("DO\nPRINT \"d\"\nA% = A% + 1\nLOOP UNTIL A% / Z0% > 1 OR A% > 3"),
             46 => format!("POKE {}, {}", i1, i2),
             47 => format!("DEF SEG = {}", rng.pick(&["0", "0", "4096", "4097", "A%"])),
             48 => "DEF SEG".to_string(),
@@ -505,6 +545,15 @@ pub fn gen_wio(rng: &mut Rng) -> RawCase {
         lines.push("Hnd:".into());
         lines.push(rng.pick(&["RESUME NEXT", "RESUME NEXT", "PRINT \"E\"; ERR\nRESUME NEXT"]).to_string());
     }
+    // a STATIC subprogram, also called from inside another subprogram
+    lines.push("SUB Cnt STATIC".into());
+    lines.push("CN% = CN% + 1".into());
+    lines.push("PRINT \"cnt\"; CN%".into());
+    lines.push("END SUB".into());
+    lines.push("SUB Outer (N%)".into());
+    lines.push("Cnt".into());
+    lines.push("IF N% > 1 THEN Outer N% - 1".into());
+    lines.push("END SUB".into());
     lines.push("FUNCTION Twice(X)".into());
     lines.push("InProc:".into());
     lines.push("Twice = X * 2".into());
